@@ -11,5 +11,5 @@ wait
 for f in "$D"/p*.diff; do
   n=$(basename "$(dirname "$D")")-$(basename "$f" .diff)
   echo "##### $n"
-  grep -E "^== .*exit=[12]|rule=|does not apply|error" /var/tmp/scratch/neg/$n.txt | cut -c1-250
+  grep -E "^== .*exit=[12]|rule=|CHECK-FAILED|does not apply|error" /var/tmp/scratch/neg/$n.txt | cut -c1-250
 done
